@@ -116,7 +116,7 @@ func VerifC12Resolve() {
 	case v[0] == '/':
 		want = v
 		vrtCover("absolute")
-	case mountLike && (c12WinAbsDrive(v) || (len(v) >= 2 && v[0] == '\\' && v[1] == '\\')):
+	case mountLike && (c12WinAbsDrive(v) || (len(v) >= 2 && v[0] == '\\' && (v[1] == '\\' || v[1] == '/'))):
 		if !c12WinAbsDrive(v) {
 			// UNC paths: the exact server/share grammar is not part of the statement; only complete
 			// \\server\share shapes are meant. Not asserted.
